@@ -295,7 +295,7 @@ fn peephole3_helper(lines: &[Line], index: usize, ret: &mut Vec<Line>) -> bool {
                         Instr::PushInt(a),
                         Instr::PushInt(b),
                         Instr::PowInt(Reg::Top, Reg::Top, Reg::Top),
-                    ) if a.checked_pow(*b as u32).is_some() => {
+                    ) if u32::try_from(*b).is_ok_and(|e| a.checked_pow(e).is_some()) => {
                         let c = a.pow(*b as u32);
                         ret.push(Line::Instr {
                             instr: Instr::PushInt(c),
